@@ -97,11 +97,15 @@ Definition relays (wf : workflow) (tab : list sentry) (x y : nat) : bool :=
   && list_eqb Nat.eqb (parents wf tab y) [x]
   && is_nil (n_split (node_at wf y)) && is_nil (n_comb (node_at wf y)).
 
-(* the inputs of a node carry separate origins, or are exactly a state and its relay *)
+(* the inputs of a node carry separate origins: no open axis in common, none an input of another *)
+Definition sep_ok (wf : workflow) (tab : list sentry) (x y : nat) : bool :=
+  disjointk (s_faxes_of tab x) (s_faxes_of tab y) && negb (memn x (parents wf tab y)).
+Definition separate_ok (wf : workflow) (tab : list sentry) (nd : node) : bool :=
+  pairwise (sep_ok wf tab) (ups tab (n_fields nd)).
+(* ... or they are exactly a state and its relay (the one shared-origin case the code aligns) *)
 Definition sharing_ok (wf : workflow) (tab : list sentry) (nd : node) : bool :=
-  let U := ups tab (n_fields nd) in
-  pairwise (fun x y => disjointk (s_faxes_of tab x) (s_faxes_of tab y) && negb (memn x (parents wf tab y))) U
-  || match U with [x; y] => relays wf tab x y || relays wf tab y x | _ => false end.
+  separate_ok wf tab nd
+  || match ups tab (n_fields nd) with [x; y] => relays wf tab x y || relays wf tab y x | _ => false end.
 (* a node with an own splitter does not combine every axis it inherits *)
 Definition comb_all_prev_ok (tab : list sentry) (nd : node) : bool :=
   negb (negb (is_nil (ups tab (n_fields nd))) && negb (is_nil (n_split nd))
@@ -128,8 +132,13 @@ Definition on_nodes (wf : workflow) (p : nat -> sentry -> node -> bool) : bool :
           (combine (combine (seq 0 (List.length wf)) (spec_table wf)) wf).
 
 Definition wf_ok (wf : workflow) : bool := on_nodes wf node_wf.
+Definition separate_class (wf : workflow) : bool := on_nodes wf (fun _ _ nd => separate_ok wf (spec_table wf) nd).
 Definition share_class (wf : workflow) : bool := on_nodes wf (fun _ _ nd => sharing_ok wf (spec_table wf) nd).
 Definition comb_all_prev_class (wf : workflow) : bool := on_nodes wf (fun _ _ nd => comb_all_prev_ok (spec_table wf) nd).
 Definition empty_comb_class (wf : workflow) : bool := on_nodes wf (fun _ e nd => empty_comb_ok wf e nd).
+(* the class of C03_partial *)
 Definition c03_domain (wf : workflow) : bool :=
+  wf_ok wf && separate_class wf && comb_all_prev_class wf && empty_comb_class wf.
+(* the same plus the relay pattern: outside it the unchanged code is known to misbehave (F03) *)
+Definition c03_aligned (wf : workflow) : bool :=
   wf_ok wf && share_class wf && comb_all_prev_class wf && empty_comb_class wf.
